@@ -43,15 +43,15 @@ PLANS = {
     "C07": P("exploration", SEM, 15000, 600, SEM + ["mid", "host"], 100000, 1200),
     "C08": P("exploration", SEM, 60000, 900, SEM + ["host", "host-nosse"], 180000, 1700),
     "C09": P("exploration", SEM, 32000, 500, SEM + ["mid", "host"], 100000, 900),
-    "C10": P("exploration", WRAP, 1500, 400, WRAP, 8000, 800),
+    "C10": P("exploration", WRAP, 3000, 400, WRAP, 8000, 800),
     "C11": P("exploration", STRICT4, 10000, 400, STRICT4, 30000, 800, strict=True, san_to_stderr=True),
     "C13": P("exploration", ["small", "small-nosse", "mid"], 48000, 500, ["small", "small-nosse", "mid", "host"], 150000, 1200, shards=15),
     "C14": P("exploration", WRAP, 1500, 100, WRAP + ["small-ts-wrap-strict"], 5000, 100, case_timeout=900),
     "C17": P("exploration", SEM, 60000, 400, SEM + ["host"], 200000, 1000),
     "C18": P("exploration", ["small-strict", "small-nosse-strict"], 2000, 300, ["small-strict", "small-nosse-strict"], 8000, 600,
              strict=True, san_to_stderr=True),
-    "C19": P("exploration", SEM, 30000, 300, SEM + ["host", "host-nosse"], 100000, 600),
-    "C20": P("fault_enumeration", FAULT3, 30, 100, FAULT3, 100, 100, shards=15, strict=True, san_to_stderr=True, case_timeout=1500),
+    "C19": P("exploration", SEM, 100000, 300, SEM + ["host", "host-nosse"], 100000, 600),
+    "C20": P("fault_enumeration", FAULT3, 120, 100, FAULT3, 400, 100, shards=15, strict=True, san_to_stderr=True, case_timeout=1500),
 }
 
 
